@@ -121,3 +121,33 @@ void h_lget(void) {
   if (rc == 0) { VF_OBS(val); VF_OBS(used); VF_ASSERT(used >= 1 && used <= (s64)n, "Lget cursor inside the line"); VF_ASSERT((s32)val >= 0, "Lget returns a non-negative integer"); }
   VF_WITNESS();
 }
+
+/* ---- whole text reader on a well-formed skeleton: line structure, the AMPL option block "3 1 1 0" and the announced numbers of dual /
+ * primal values (ND, NP) are concrete (they fix every file position), all other numbers are symbolic digits; declared sizes symbolic ---- */
+#ifndef ND
+#define ND 1
+#endif
+#ifndef NP
+#define NP 1
+#endif
+static u32 off_d, off_p, seen_objno, seen_code, v_objno, v_code;
+static void put(const char *t) { for (u32 i = 0; t[i]; i++) { u8 c = (u8)t[i]; if (c == '#') c = (u8)('0' + vf_ndrange(0, 9)); FB[FLEN++] = c; } }
+void h_read_sol_skel(void) {
+  setsizes(); FLEN = 0;
+  put("m\n\nOptions\n3\n1\n1\n0\n#\n"); FB[FLEN++] = (u8)('0' + ND); put("\n#\n"); FB[FLEN++] = (u8)('0' + NP); put("\n");
+  for (u32 i = 0; i < ND; i++) put("#\n");
+  for (u32 i = 0; i < NP; i++) put("#\n");
+  u32 po = FLEN; put("objno # #\n"); u32 objd = FB[po + 6] - '0', coded = FB[po + 8] - '0';
+#ifdef VF_REAL
+  snprintf(path, sizeof path, "/tmp/vf_c14_%d.sol", (int)getpid());
+  { FILE *f = fopen(path, "wb"); fwrite(rb, 1, rlen, f); fclose(f); }
+#else
+  vf_fopen_fails = 0;
+#endif
+  for (int k = 0; k < 4; k++) { partial_pending[k] = 0; took[k] = 0; }
+  u32 rc = w_read_sol(path, decl_vars, decl_cons);
+  check_rc(rc);
+  int fits = ND <= (u32)decl_cons && NP <= (u32)decl_vars;
+  VF_ASSERT((rc == 0) == (fits != 0), "a solution announcing more dual / primal values than the problem has constraints / variables is rejected, any other well-formed file is accepted");
+  VF_WITNESS();
+}
